@@ -14,7 +14,7 @@ CAP_S = {'quick': 150, 'thorough': 3000}
 RULE = ('two case families. viol: (hint, object built by injecting a violation at a generated path of a conforming object, '
         'conf, draws) - when the reference semantics says must_reject, is_bearable / die_if_unbearable / decorated parameter '
         'must reject for every draw under is_random in {True, False}; conversely an accepted object must not must_reject. '
-        'reach: sequence hint (list/List/Sequence/MutableSequence/tuple[T,...]) under 0-2 unsampled ancestors, object of length n '
+        'reach: sequence-sampling hint (list/List/Sequence/MutableSequence/tuple[T,...], and Iterable/Container/Reversible holding a sequence object) under 0-2 unsampled ancestors, object of length n '
         'whose only defect is a draw-independent violation at index i: some draw in 0..n-1 must reject, and with '
         'is_random=False the object is rejected iff i == 0. non-trivial = violation depth >= 1, or index >= 1, or a union '
         'whose members all reject; distinct by canonical JSON')
@@ -24,7 +24,11 @@ ASSUMPTIONS = [
 ]
 
 EPS = ('is_bearable', 'die_if_unbearable', 'param')
-SEQ_WRAPPERS = [['seq', f] for f in sorted(H.SEQ_FAMS)] + [['tupv', 'T'], ['tupv', 't']]
+# hints under which a *sequence object* is sampled by index: the sequence families, variadic tuples, and the
+# quasi-iterable families (Iterable/Container/Reversible) when the object happens to be a sequence.
+# Collection[T] is deliberately absent: beartype documents it as a reiterable whose first item is inspected.
+SEQ_WRAPPERS = ([['seq', f] for f in sorted(H.SEQ_FAMS)] + [['tupv', 'T'], ['tupv', 't']] +
+                [['quasi', f] for f in sorted(H.QUASI_FAMS)])
 
 
 @st.composite
@@ -53,7 +57,7 @@ def _reach_case(draw, tier):
     else:
         child, bad = ['cls', 'int'], ['obj', 'VAlien']
     w = draw(st.sampled_from(SEQ_WRAPPERS))
-    seqnode = ['seq', w[1], child] if w[0] == 'seq' else ['tupv', child, w[1]]
+    seqnode = ['tupv', child, w[1]] if w[0] == 'tupv' else [w[0], w[1], child]
     n = draw(st.sampled_from([1, 2, 3, 3, 4, 5, 7, 8, 12]))
     i = draw(st.one_of(st.integers(0, n - 1), st.sampled_from([0, n - 1, n // 2])))
     base = draw(H.conforming(seqnode, False, st.just(n)))
@@ -84,7 +88,7 @@ def _reach_case(draw, tier):
         else:
             node = ['ann', node, [['is', 'always']]]
     node = H.merge_nested_annotated(node)
-    return {'kind': 'reach', 'hint': node, 'value': val, 'index': i, 'len': n, 'child': child, 'seqval': [base[0], items], 'seq': seqnode[:2] if w[0] == 'seq' else ['tupv'],
+    return {'kind': 'reach', 'hint': node, 'value': val, 'index': i, 'len': n, 'child': child, 'seqval': [base[0], items], 'seq': seqnode[:2] if w[0] != 'tupv' else ['tupv'],
             'conf': draw(st.fixed_dictionaries({}, optional={'strategy': st.sampled_from(['O1', 'On'])}))}
 
 
